@@ -43,6 +43,23 @@ pub fn drive(args: &[String]) {
     let start = arg_num(args, "--start-case", 0) as usize;
     let append = arg_num(args, "--append", 0) == 1;
     let mut w = TraceWriter::open(out, append, 10_000);
+    if start == 0 {
+        // hand-written shapes the generator does not produce: a global whose first mention is a dotted path
+        let f = |name: &str, body: Vec<C>| F { name: name.into(), params: vec![], body };
+        let probes: Vec<(&str, P)> = vec![
+            ("dotted-read-first", P { fns: vec![f("main", vec![setg("r", read("cfg.size"))]), f("setup", vec![setg("cfg", card("CreateTable", vec![]))])], natives: vec![], imports: vec![] }),
+            ("dotted-read-deep", P { fns: vec![f("main", vec![setv("x", read("conf.a.b")), setg("out", read("x"))])], natives: vec![], imports: vec![] }),
+            ("dotted-set-first", P { fns: vec![f("main", vec![setv("opts.size.x", int(1)), setg("opts", card("CreateTable", vec![]))])], natives: vec![], imports: vec![] }),
+        ];
+        for (name, p) in probes {
+            match guarded(|| cao_lang::compiler::compile(p.to_module(), None)) {
+                Ok(Ok(c)) => w.line(project(&json!(format!("{profile}/probe-{name}")), &c)),
+                Ok(Err(_)) => {}
+                Err(msg) => w.line(json!({"id": format!("{profile}/probe-{name}"), "panic": msg, "bc": [], "data": [], "labels": [], "vars": [],
+                                          "nids": 0, "nnames": 0, "trace": []})),
+            }
+        }
+    }
     for id in start..n {
         let mut rng = Rng::new(seed.wrapping_mul(7_919_117).wrapping_add(id as u64));
         let p = Gen::new(&mut rng, Profile::named(&profile)).program();
